@@ -203,33 +203,37 @@ Definition dimeq_table (r : reg) : list (string * uc) :=
                       | _, _ => None
                       end
           end) (map_to_list (r_units r)).
-(** plain [_get_compatible_units] ([_get_dimensionality] keeps the "[]" key out as well) *)
-Definition compat_all (r : reg) (tbl : list (string * uc)) (a : uc) : res sset :=
-  if bool_decide (a = ∅) then Ok ∅ else
+(** plain [_get_compatible_units] ([_get_dimensionality] keeps the "[]" key out as well): the names
+    listed under the dimensionality of the input (a list; the same name may occur once per spelling) *)
+Definition compat_names (r : reg) (tbl : list (string * uc)) (a : uc) : res (list string) :=
+  if bool_decide (a = ∅) then Ok [] else
   d ←r dim_of r a;
-  Ok (list_to_set (map fst (filter (λ nd, uc_eqb nd.2 d) tbl))).
+  Ok (map fst (filter (λ nd, uc_eqb nd.2 d) tbl)).
+(** [members & names]: the members whose name is listed *)
+Definition restrict (m : sset) (names : list string) : sset :=
+  list_to_set (filter (λ x, existsb (String.eqb x) names) (elements m)).
 (** [GenericSystemRegistry.get_compatible_units(input, group_or_system)] *)
 Definition get_compatible (qk : quirks) (r : reg) (tbl : list (string * uc)) (st : sstate) (a : uc)
     (gos : option string) : sstate * res sset :=
   let gos := match gos with Some g => Some g | None => ss_default st end in
   match gos with
-  | None => (st, compat_all r tbl a)
+  | None => (st, names ←r compat_names r tbl a; Ok (list_to_set names))
   | Some n =>
       match ss_systems st !! n with
       | Some _ =>
           match sys_members qk st n with
-          | (st', Ok m) => (st', all ←r compat_all r tbl a; Ok (m ∩ all))
+          | (st', Ok m) => (st', names ←r compat_names r tbl a; Ok (restrict m names))
           | (st', Err e) => (st', Err e)
           end
       | None =>
-          match compat_all r tbl a with
+          match compat_names r tbl a with
           | Err e => (st, Err e)
-          | Ok all =>
+          | Ok names =>
               match ss_groups st !! n with
               | None => (st, Err EValue)        (* "Unknown Group o System with name" *)
               | Some _ =>
                   match members (ss_groups st) n with
-                  | (gs, Ok m) => (ss_set_groups st gs, Ok (all ∩ m))
+                  | (gs, Ok m) => (ss_set_groups st gs, Ok (restrict m names))
                   | (gs, Err e) => (ss_set_groups st gs, Err e)
                   end
               end
